@@ -344,11 +344,22 @@ def adjudicate(check, t, ob):
                 break
             out = replay.parse_out(r.stdout)
             got = [float(x) for x in out.get('RET', [])]
-            want = [float(x[1]) if is_num(x) else None for x in formula(vals)]
+            want_terms = formula(vals)
+            want = [float(x[1]) if is_num(x) else None for x in want_terms]
             if mode == 'sqrt':
                 want = [math.sqrt(want[0])] if want[0] is not None and want[0] >= 0 else [None]
-            bad = ['component %d: the library returns %r, the textbook formula gives %r' % (i, g, w) for i, (g, w) in enumerate(zip(got, want))
-                   if w is None or abs(g - w) > 1e-9 * max(1.0, abs(w))]
+            # tolerance at the resolution of the numeric type; exact rational comparison where the formula is rational
+            tol = {'float': 1e-5, 'double': 1e-13, 'long double': 64.0 * 2.0 ** -63}[T]
+            bad = []
+            for i, (g, w) in enumerate(zip(got, want)):
+                gx = out.get('RET', [])[i]
+                if mode != 'sqrt' and is_num(want_terms[i]) and isinstance(gx, Fraction):
+                    wx = want_terms[i][1]
+                    if abs(gx - wx) > Fraction(tol) * max(Fraction(1), abs(wx)):
+                        bad.append('component %d: the library returns %.21g, the textbook formula gives %.21g (relative difference %.3g, tolerance %.3g at the resolution of %s)' % (
+                            i, g, float(wx), float(abs(gx - wx) / max(Fraction(1), abs(wx))), tol, T))
+                elif w is None or abs(g - w) > max(tol, 1e-13) * max(1.0, abs(w)):
+                    bad.append('component %d: the library returns %r, the textbook formula gives %r' % (i, g, w))
             if bad or len(got) != len(want):
                 rec['cpp'], rec['native_output'] = cpp, r.stdout
                 rec['inputs'] = {k2: [str(x) for x in v] for k2, v in inputs.items()}
